@@ -80,6 +80,16 @@ class ConcreteEngine:
             raise Unrepresentable(name)
         return int(v)
 
+    def string(self, name, maxlen, alphabet):
+        n = self.choice(name + '.len', list(range(maxlen + 1)))
+        out = []
+        for i in range(n):
+            v = self.model.get('%s.%d' % (name, i))
+            if v is None:
+                v = ord(sorted(alphabet)[0])
+            out.append(chr(int(Fraction(v))))
+        return ''.join(out)
+
     def date(self, name):
         import datetime
         vals = []
